@@ -31,7 +31,8 @@ def amf_cfg(cfg, strict=False):
                 sst=cfg.get("sst", 1), sd=cfg.get("sd", "010203"), **({"qos_lens": cfg["qos_lens"]} if "qos_lens" in cfg else {}),
                 **({"first_amf_id": cfg["first_amf_id"]} if "first_amf_id" in cfg else {}),
                 **({"flow_desc_len": cfg["flow_desc_len"]} if "flow_desc_len" in cfg else {}),
-                **({"exact16k": cfg["exact16k"]} if "exact16k" in cfg else {}))
+                **({"exact16k": cfg["exact16k"]} if "exact16k" in cfg else {}),
+                **({"other_plmn_first": cfg["other_plmn_first"]} if "other_plmn_first" in cfg else {}))
 
 
 GARBAGE = b"\xff\xfe\xfd"
